@@ -1,4 +1,4 @@
 SPECIFICATION Spec
-CONSTANTS CmaxI = 129  EminNeg = 2  Emax = 2  Family = "spec"
+CONSTANTS CmaxI = 39  EminNeg = 1  Emax = 1  Family = "spec"
 INVARIANTS UnaryTable PowTable
 CHECK_DEADLOCK FALSE
